@@ -765,11 +765,11 @@ Qed.
 Lemma log_entries_err l i max e :
   log_entries l i max = Ok (SErr e) -> e = Compacted \/ e = LogTemporarilyUnavailable.
 Proof.
-  unfold log_entries. intros H. case_if H; [discriminate|].
+  unfold log_entries. intros H. case_if H; [discriminate|]. case_if H; [discriminate|].
   unfold slice in H. inv_bind H. destruct x as [e0|].
   - inversion H; subst. unfold must_check_outofbounds in Hx.
     case_if Hx; [discriminate|]. inv_bind Hx. case_if Hx; [inversion Hx; auto|].
-    case_if Hx; discriminate.
+    case_if Hx; [discriminate|]. case_if Hx; discriminate.
   - case_if H; [discriminate|]. inv_bind H. destruct x as [early|ents].
     + inversion H; subst; clear H. case_if Hx0; [|discriminate].
       inv_bind Hx0. destruct x as [ents|e1].
@@ -1083,6 +1083,8 @@ Section Compaction.
       destruct (hi <? lo); [reflexivity|].
       destruct (u_maybe_first_index (unst l)) as [fi|]; [reflexivity|]. cbn [bind].
       destruct (lo <? ci) eqn:E1; [lia|]. destruct (lo <? first_of m) eqn:E2; [lia|].
+      destruct (last_index l + 1 <? ci) eqn:E3; [lia|].
+      destruct (last_index l + 1 <? first_of m) eqn:E4; [lia|].
       cbn [orb].
       replace (ci + (last_index l + 1 - ci)) with (last_index l + 1) by lia.
       replace (first_of m + (last_index l + 1 - first_of m)) with (last_index l + 1) by lia.
@@ -1104,7 +1106,8 @@ Section Compaction.
     ci <= i -> ci <= last_index l + 1 -> log_entries l' i max = log_entries l i max.
   Proof.
     intros Hi Hla. unfold log_entries. rewrite cpt_log_last_index.
-    destruct (last_index l <? i); [reflexivity|]. apply cpt_log_slice; assumption.
+    destruct (last_index l <? i); [reflexivity|].
+    destruct (last_index l =? u64_max); [reflexivity|]. apply cpt_log_slice; assumption.
   Qed.
 End Compaction.
 
@@ -1136,3 +1139,28 @@ Qed.
 Theorem compaction_noop l ci :
   RepInv (store l) -> ci <= first_of (store l) -> compact (store l) ci = Ok (store l).
 Proof. intros HI H. apply compact_noop; assumption. Qed.
+
+Lemma requested_stale_snapshot_keeps_log_step_full :
+  exists r1 r' mm,
+    request_snapshot w_follower = Ok (r1, E_OK) /\
+    step r1 w_msg = Ok (r', E_OK) /\
+    last_index (r_log r1) = 5 /\ last_index (r_log r') = 5 /\
+    r_log r' = r_log r1 /\
+    r_msgs r' = r_msgs r1 ++ [mm] /\
+    m_type mm = MsgAppendResponse /\ m_index mm = 4 /\ m_reject mm = false.
+Proof.
+  destruct w_requested_ok as (r1 & A & B & _).
+  destruct requested_stale_snapshot_keeps_log_step as (r' & mm & C0 & D).
+  exists r1, r', mm. rewrite <- B. split; [rewrite B; exact A|]. split; [exact C0|exact D].
+Qed.
+
+(* example states used by the non-vacuity Examples in Props/C15.v *)
+Definition ex_leader : raft :=
+  let st := mkMem (mkHS 1 1 5) w_cs [w_ent 4; w_ent 5] 3 1 false false None in
+  mkRaft 1 1 1 [] (mkLog st (u_new 6) 5 5 5 0) 256 1000 0 Leader true 1 None 0 (ro_new 0) 0 0
+         false false false false false 1 10 15 10 20 0%Z u64_max 0 5 u64_max
+         (mkTr [(1, mkPr 5 6 Replicate false 0 0 true (Inflights.new 256) 0 5);
+                (2, mkPr 0 2 Probe false 0 0 true (Inflights.new 256) 0 0);
+                (3, mkPr 5 6 Replicate false 0 0 true (Inflights.new 256) 0 5)]
+               (mkConf [1; 2; 3] [] [] [] false) [] 256 false) [] [] None.
+
